@@ -1,1 +1,3 @@
 import SfProofs.Table
+import SfProofs.Bytes
+import SfProofs.Adpcm
